@@ -197,6 +197,16 @@ def mutate(data: bytes, spec: list, other: bytes = b"") -> bytes:
         return zip_sub(data, spec[1], spec[2], spec[3], spec[4] if len(spec) > 4 else 1)
     if op == "zipenc":                                 # valid ZIP whose members carry the "encrypted" flag bit
         return zip_flag_encrypted(build_archive("zip", [(n, data) for n in spec[1]]))
+    if op == "append":                                 # stray bytes after the end of the file
+        r = random.Random(spec[2])
+        return data + bytes(r.randrange(256) for _ in range(spec[1]))
+    if op == "olestream":                              # the bare content of one OLE stream (no container around it)
+        pk = _pick_stream(data, spec[1])
+        return _ole_read(data, pk[1]) if pk else data
+    if op == "olecycle":                               # OLE2 allocation / directory structures that point to themselves
+        return ole_cycle(data, spec[1], spec[2])
+    if op == "selfref":                                # hand-built containers whose structure refers to itself
+        return SELFREF[spec[1]]()
     if op == "omml":                                   # DOCX / PPTX with a formula nesting one OMML construct n deep
         return omml_document(data, spec[1], spec[2], spec[3])
     if op == "surr":                                   # multi-result inputs whose k-th result cannot be encoded
@@ -392,6 +402,10 @@ def zip_header_attack(data: bytes, how: str, rs: int) -> bytes:
         struct.pack_into("<I", b, eocd + 12, r.choice([0, 1, 0xFFFFFFFF]))
     elif how == "comment":
         struct.pack_into("<H", b, eocd + 20, 0xFFFF)
+    elif how == "cdself":                              # the member's "local header" is its own central-directory record
+        struct.pack_into("<I", b, cd + 42, cd)
+    elif how == "eocdself":                            # the central directory starts at the end record itself
+        struct.pack_into("<I", b, eocd + 16, eocd)
     elif how == "zip64":
         struct.pack_into("<I", b, cd + 24, 0xFFFFFFFF)
         struct.pack_into("<I", b, cd + 20, 0xFFFFFFFF)
@@ -400,7 +414,7 @@ def zip_header_attack(data: bytes, how: str, rs: int) -> bytes:
 
 
 ZIP_HDR_HOWS = ["method", "flags", "usize", "csize", "offset", "crc", "namelen", "count", "cdoff", "cdsize",
-                "comment", "zip64"]
+                "comment", "zip64", "cdself", "eocdself"]
 ZIP_SHELL_HOWS = list(HOSTILE_XML) + ["drop", "dir", "dupname", "longname", "nlname", "abs", "dotdot"]
 ZIP_SHELL_WHICH = ["content_types", "rels", "main", "all_xml", "first", "random"]
 
@@ -958,3 +972,139 @@ def surrogate_input(which: str) -> bytes:
 SURR_INPUTS = {"mbox_clean": "mbox", "mbox_second": "mbox", "mbox_first": "mbox", "mbox_third": "mbox", "mbox_only": "mbox",
                "html_only": "html", "zip_second": "zip", "zip_first": "zip", "tar_second": "tar", "zip_none": "zip",
                "zip_three": "zip"}
+
+
+# ----------------------------------------------------- "a structure that points to itself", per container format
+def _sevenz(header_at_end: bytes, packed: bytes = b"") -> bytes:
+    import zlib
+    start = struct.pack("<QQI", len(packed), len(header_at_end), zlib.crc32(header_at_end) & 0xFFFFFFFF)
+    return (b"7z\xbc\xaf\x27\x1c\x00\x04" + struct.pack("<I", zlib.crc32(start) & 0xFFFFFFFF) + start + packed + header_at_end)
+
+
+def _sevenz_encoded_header(pack_pos: int, size: int) -> bytes:
+    # EncodedHeader: PackInfo(pos, 1 stream, size) UnpackInfo(1 folder, 1 coder = Copy, unpack size) End
+    return bytes([0x17, 0x06, pack_pos, 0x01, 0x09, size, 0x00, 0x07, 0x0B, 0x01, 0x00, 0x01, 0x01, 0x00, 0x0C, size, 0x00, 0x00])
+
+
+def sevenz_header_is_itself() -> bytes:
+    """7z whose encoded header (Copy coder) is stored at ... the header's own position: it decodes to itself."""
+    return _sevenz(_sevenz_encoded_header(0, 18))
+
+
+def sevenz_headers_a_b_a() -> bytes:
+    """two encoded headers that decode to each other."""
+    b_ = _sevenz_encoded_header(18, 18)            # stored first (pack area): decodes to what lies at 32+18 = header A
+    a_ = _sevenz_encoded_header(0, 18)             # the end header: decodes to what lies at 32+0 = B
+    return _sevenz(a_, b_)
+
+
+def sevenz_header_in_header() -> bytes:
+    """encoded header that decodes to a (plain) header whose main streams point back into the header area."""
+    plain = bytes([0x01, 0x04, 0x06, 0x00, 0x01, 0x09, 0x12, 0x00, 0x07, 0x0B, 0x01, 0x00, 0x01, 0x01, 0x00, 0x0C, 0x12, 0x00, 0x00, 0x00])
+    enc = bytes([0x17, 0x06, 0x00, 0x01, 0x09, len(plain), 0x00, 0x07, 0x0B, 0x01, 0x00, 0x01, 0x01, 0x00, 0x0C, len(plain), 0x00, 0x00])
+    return _sevenz(enc, plain)
+
+
+def _pdf(objs, trailer_extra=b"", root=1):
+    out = bytearray(b"%PDF-1.5\n")
+    offs = {}
+    for num, body in objs:
+        offs[num] = len(out)
+        out += b"%d 0 obj\n" % num + body + b"\nendobj\n"
+    x, n = len(out), max(offs) + 1
+    out += b"xref\n0 %d\n0000000000 65535 f \n" % n
+    for i in range(1, n):
+        out += b"%010d 00000 n \n" % offs.get(i, 0)
+    out += b"trailer\n<< /Size %d /Root %d 0 R %s>>\nstartxref\n%d\n%%%%EOF\n" % (n, root, trailer_extra, x)
+    return bytes(out)
+
+
+def _pdf_page(contents: bytes, stream_dict: bytes = b"", resources: bytes = b"<< /Font << /F1 5 0 R >> >>"):
+    return _pdf([(1, b"<< /Type /Catalog /Pages 2 0 R >>"), (2, b"<< /Type /Pages /Kids [3 0 R] /Count 1 >>"),
+                 (3, b"<< /Type /Page /Parent 2 0 R /MediaBox [0 0 200 200] /Resources " + resources + b" /Contents 4 0 R >>"),
+                 (4, b"<< /Length %d %s>>\nstream\n" % (len(contents), stream_dict) + contents + b"\nendstream"),
+                 (5, b"<< /Type /Font /Subtype /Type1 /BaseFont /Helvetica >>")])
+
+
+SELFREF = {
+    "7z_self": sevenz_header_is_itself,
+    "7z_aba": sevenz_headers_a_b_a,
+    "7z_hdr_in_hdr": sevenz_header_in_header,
+    # PDF pages whose content cannot be extracted at all (both attempts of the extractor fail) / odd operands
+    "pdf_badfilter": lambda: _pdf_page(b"BT /F1 12 Tf (Hello) Tj ET", b"/Filter /NoSuchDecode "),
+    "pdf_badflate": lambda: _pdf_page(b"this is not deflate data", b"/Filter /FlateDecode "),
+    "pdf_badops": lambda: _pdf_page(b"BT /F1 12 Tf (a) (b) Tm [ Td (Hello) Tj ET"),
+    "pdf_badfont": lambda: _pdf_page(b"BT /F9 12 Tf (Hello) Tj ET", b"", b"<< /Font << /F9 3 0 R >> >>"),
+    "pdf_objstm_self": lambda: _pdf([(1, b"<< /Type /Catalog /Pages 2 0 R >>"), (2, b"<< /Type /Pages /Kids [3 0 R] /Count 1 >>"),
+                                     (3, b"<< /Type /Page /Parent 2 0 R /Contents 4 0 R >>"),
+                                     (4, b"<< /Type /ObjStm /N 1 /First 4 /Length 8 >>\nstream\n4 0 4 0 R\nendstream")]),
+    "pdf_len_self": lambda: _pdf([(1, b"<< /Type /Catalog /Pages 2 0 R >>"), (2, b"<< /Type /Pages /Kids [3 0 R] /Count 1 >>"),
+                                  (3, b"<< /Type /Page /Parent 2 0 R /Contents 4 0 R >>"),
+                                  (4, b"<< /Length 4 0 R >>\nstream\nBT (x) Tj ET\nendstream")]),
+    "pdf_xobj_self": lambda: _pdf([(1, b"<< /Type /Catalog /Pages 2 0 R >>"), (2, b"<< /Type /Pages /Kids [3 0 R] /Count 1 >>"),
+                                   (3, b"<< /Type /Page /Parent 2 0 R /Resources << /XObject << /F 5 0 R >> >> /Contents 4 0 R >>"),
+                                   (4, b"<< /Length 5 >>\nstream\n/F Do\nendstream"),
+                                   (5, b"<< /Type /XObject /Subtype /Form /BBox [0 0 9 9] /Resources << /XObject << /F 5 0 R >> >> /Length 5 >>\nstream\n/F Do\nendstream")]),
+}
+SELFREF_KIND = {k: ("archive" if k.startswith("7z") else "pdf") for k in SELFREF}
+SELFREF_EXT = {k: ("7z" if k.startswith("7z") else "pdf") for k in SELFREF}
+
+
+def ole_cycle(data: bytes, how: str, rs: int) -> bytes:
+    """make the FAT chain of the largest stream, the mini-FAT, or the directory tree of an OLE2 file cyclic."""
+    try:
+        import olefile
+        ole = olefile.OleFileIO(io.BytesIO(data))
+        ss = ole.sectorsize
+        b = bytearray(data)
+        per = ss // 4
+
+        def fat_entry_offset(sect):
+            difat = [struct.unpack_from("<I", data, 76 + 4 * i)[0] for i in range(109)]
+            fs = difat[sect // per]
+            return (fs + 1) * ss + 4 * (sect % per)
+        r = random.Random(rs)
+        if how.startswith("fat"):
+            pk = _pick_stream(data, "any")
+            if not pk:
+                return data
+            offs = pk[1][0]
+            sects = [o // ss - 1 for o in offs]
+            if len(sects) < 3:
+                return data
+            i = r.randrange(1, len(sects) - 1)
+            target = {"fat_self": sects[i], "fat_back": sects[0], "fat_prev": sects[i - 1]}[how]
+            struct.pack_into("<I", b, fat_entry_offset(sects[i]), target)
+            return bytes(b)
+        # directory: entries of 128 bytes in the chain starting at header offset 48
+        dstart = struct.unpack_from("<I", data, 48)[0]
+        chain, sect = [], dstart
+        while sect not in (0xFFFFFFFE, 0xFFFFFFFF) and len(chain) < 64 and sect < len(ole.fat):
+            chain.append((sect + 1) * ss)
+            sect = ole.fat[sect]
+        n_entries = len(ole.direntries)
+        k = r.randrange(0, max(1, min(n_entries, len(chain) * (ss // 128))))
+        eo = chain[(k * 128) // ss] + (k * 128) % ss
+        if how == "dir_left_self":
+            struct.pack_into("<I", b, eo + 68, k)
+        elif how == "dir_right_self":
+            struct.pack_into("<I", b, eo + 72, k)
+        elif how == "dir_child_self":
+            struct.pack_into("<I", b, eo + 76, k)
+        elif how == "dir_child_root":
+            struct.pack_into("<I", b, eo + 76, 0)
+        elif how == "dir_chain_self":                 # the directory's own FAT chain loops
+            struct.pack_into("<I", b, fat_entry_offset(dstart), dstart)
+        elif how == "minifat_self":
+            ms = struct.unpack_from("<I", data, 60)[0]
+            if ms in (0xFFFFFFFE, 0xFFFFFFFF):
+                return data
+            struct.pack_into("<I", b, (ms + 1) * ss, 0)          # mini sector 0 -> 0
+            struct.pack_into("<I", b, fat_entry_offset(ms), ms)  # and the mini-FAT's own chain -> itself
+        return bytes(b)
+    except Exception:
+        return data
+
+
+OLE_CYCLES = ["fat_self", "fat_back", "fat_prev", "dir_left_self", "dir_right_self", "dir_child_self", "dir_child_root",
+              "dir_chain_self", "minifat_self"]
